@@ -961,7 +961,11 @@ func (h *handler) makeSyncer(peerInfo peer.AddrInfo, doUpdate bool) (Syncer, fun
 		return h.syncer, update, nil
 	}
 	if doUpdate {
-		peerStore := s.host.Peerstore()
+		// A subscriber without a libp2p host has no such peerstore.
+		var peerStore peerstore.Peerstore
+		if s.host != nil {
+			peerStore = s.host.Peerstore()
+		}
 		if peerStore != nil && len(peerInfo.Addrs) != 0 {
 			delNotPresent(peerStore, peerInfo.ID, peerInfo.Addrs)
 			// Add it to peerstore with a small TTL first, and extend it if/when
